@@ -395,7 +395,7 @@ pub fn main(args: &[String]) {
             Some(v) if !v.is_null() => Some(rec_from(v)),
             _ => None,
         };
-        check_case(c, r.as_ref().unwrap_or(&rec), i).into_iter().map(|m| json!({"case": i, "input": c["input"], "expected": c["out"], "mismatch": m})).collect()
+        check_case(c, r.as_ref().unwrap_or(&rec), mix(i)).into_iter().map(|m| json!({"case": i, "input": c["input"], "expected": c["out"], "mismatch": m})).collect()
     });
     write_ndjson(&args[1], &res);
     println!("{}", json!({"cases": cases.len(), "mismatches": res.len()}));
@@ -509,7 +509,7 @@ pub fn main_width(args: &[String]) {
     quiet_panics();
     let rows = read_ndjson(&args[0]);
     let res = par_map(&rows, threads(), |i, c| {
-        check_width(i, c).into_iter().map(|m| json!({"case": i, "input": c, "mismatch": m})).collect()
+        check_width(mix(i), c).into_iter().map(|m| json!({"case": i, "input": c, "mismatch": m})).collect()
     });
     write_ndjson(&args[1], &res);
     println!("{}", json!({"cases": rows.len(), "mismatches": res.len()}));
